@@ -1,6 +1,7 @@
 //! seqx — explicit-state exploration of handle histories on the real crate.
 mod cmp;
 mod engine;
+mod ul;
 mod us;
 mod ut;
 
@@ -67,6 +68,7 @@ fn main() {
     let j = match uni.as_str() {
         "S" => run::<us::US>(&args),
         "T" => run::<ut::UT>(&args),
+        "L" => run::<ul::UL>(&args),
         _ => panic!("unknown universe"),
     };
     let out = j.dump();
